@@ -119,7 +119,11 @@ func executeCompaction(db *DB) (compactionMetadata *proto.CompactionMetadata, er
 		}
 	}()
 
-	reduceFunc := sstables.ScanReduceLatestWinsSkipTombstones
+	// tombstones may only be dropped when no older table can still hold a value for the key
+	reduceFunc := reduceLatestWinsKeepTombstones
+	if compactionAction.includesOldest {
+		reduceFunc = sstables.ScanReduceLatestWinsSkipTombstones
+	}
 	err = sstables.NewSSTableMerger(db.cmp).MergeCompact(iterators, writer, reduceFunc)
 	if err != nil {
 		return nil, err
@@ -153,6 +157,17 @@ func executeCompaction(db *DB) (compactionMetadata *proto.CompactionMetadata, er
 	log.Printf("done compacting %d sstables in %v. Path: [%s]\n", len(paths), time.Since(start), writeFolder)
 
 	return compactionMetadata, nil
+}
+
+// reduceLatestWinsKeepTombstones is sstables.ScanReduceLatestWins, but keeps a tombstone as an empty (non-nil) value
+// instead of dropping the key. Empty values read as "not found" and are dropped by a later compaction that
+// includes the oldest table.
+func reduceLatestWinsKeepTombstones(key []byte, values [][]byte, context []int) ([]byte, []byte) {
+	key, val := sstables.ScanReduceLatestWins(key, values, context)
+	if val == nil {
+		val = []byte{}
+	}
+	return key, val
 }
 
 func saveCompactionMetadata(writeFolder string, compactionMetadata *proto.CompactionMetadata) (err error) {
